@@ -8,7 +8,7 @@ META = {
     'bounds': {
         'quick': 'all well-formed skeletons of <=5 items over {el, el*R, el/, >, +, ^, (, ), )*R}, R in 1..3 symbolic '
                  '(one count for elements, one for groups), selfClosingStyle html/xhtml/xml, format off and on; '
-                 'implicit names: 17 parent contexts x 6 templates',
+                 'implicit names: 17 parent contexts x 12 templates (below a parent, and at the top level after a sibling/group/climb)',
         'thorough': 'the same for <=7 items',
     },
     'outside_claim': ['a child operator applied to a group `(..)>x` (not defined by the property)',
@@ -120,8 +120,8 @@ def wellformed_step(kinds):
             depth -= 1
             prev = 'groupend'
         elif k == CH:
-            if prev != 'unit':
-                return False       # after a group: undefined; after el/: not a leaf
+            if prev not in ('unit', 'closeel'):
+                return False       # after a group: undefined by the property
             prev = 'op'
         elif k == SIB:
             if prev not in ('unit', 'groupend', 'closeel'):
@@ -242,6 +242,9 @@ def mk_structure(K, style, fmt, first):
                           'markup.parse', 'format.html.element', 'format.walk.walk', 'OutputStream']}
 
 
+# nameless elements at the top level, reached by +, by a group or by climbing out: always `div`
+TOP_TEMPLATES = ['P+[a]', 'P>ex^[a]', '(P>[a]*901)+.c', 'P>[a]^^.c', '(P+em)+[a]', 'P*901+.c']
+
 PARENTS = [('ul', 'li'), ('ol', 'li'), ('table', 'tr'), ('tbody', 'tr'), ('thead', 'tr'), ('tfoot', 'tr'),
            ('tr', 'td'), ('select', 'option'), ('optgroup', 'option'), ('p', 'span'), ('em', 'span'),
            ('a', 'span'), ('strong', 'span'), ('section', 'div'), ('div', 'div'), ('x1', 'div'), (None, 'div')]
@@ -250,7 +253,7 @@ IMPL_TEMPLATES = ['P>[a]', 'P>.c', 'P>(.c+[a])*902', 'P*901>[a]', 'P>[a]*901', '
 
 def mk_implicit(ti):
     from vf.pipe import expand_injected, make_config, set_repeat
-    tpl = IMPL_TEMPLATES[ti]
+    tpl = (IMPL_TEMPLATES + TOP_TEMPLATES)[ti]
     user = {'options': {'output.format': False}}
 
     def expected(parent, child, r, wrong=False):
@@ -269,8 +272,24 @@ def mk_implicit(ti):
             body, pr = el(child, a), r
         elif tpl == 'P>[a]*901':
             body, pr = el(child, a) * r, 1
-        else:
+        elif tpl == 'P>#i+.c':
             body, pr = el(child, i) + el(child, c), 1
+        else:
+            # top-level templates: the nameless element is a `div` whatever came before it
+            top = 'divx' if wrong else 'div'
+            pattrs = {'a': ' href=""', 'select': ' name="" id=""'}.get(parent, '')
+            P = lambda inner='': el(parent, pattrs, inner)
+            if tpl == 'P+[a]':
+                return P() + el(top, a)
+            if tpl == 'P>ex^[a]':
+                return P(el('ex', '')) + el(top, a)
+            if tpl == '(P>[a]*901)+.c':
+                return P(el(child, a) * r) + el(top, c)
+            if tpl == 'P>[a]^^.c':
+                return P(el(child, a)) + el(top, c)
+            if tpl == '(P+em)+[a]':
+                return P() + el('em', '') + el(top, a)
+            return P() * r + el(top, c)
         if parent is None:
             return body * pr
         # `a` and `select` are built-in snippets that add their own attributes to the parent
@@ -287,7 +306,7 @@ def mk_implicit(ti):
                 return 'skip'
             parent, child = PARENTS[p]
             if parent is None:
-                if tpl.startswith('P*'):
+                if tpl.startswith('P*') or tpl in TOP_TEMPLATES:
                     return 'skip'
                 abbr = tpl[2:]
             else:
@@ -321,7 +340,7 @@ def jobs(tier):
                                'vf.props.c01:mk_structure', dict(K=K, style=style, fmt=fmt, first=first), shape='H',
                                bound='<=%d items' % K, budget=900 if q else 3000,
                                weight=(8 if first in (EL, GO) else 3) * 100))
-    for ti in range(len(IMPL_TEMPLATES)):
-        out.append(Job('C01-b/implicit/%s' % IMPL_TEMPLATES[ti], 'vf.props.c01:mk_implicit', dict(ti=ti), shape='H',
+    for ti in range(len(IMPL_TEMPLATES) + len(TOP_TEMPLATES)):
+        out.append(Job('C01-b/implicit/%s' % (IMPL_TEMPLATES + TOP_TEMPLATES)[ti], 'vf.props.c01:mk_implicit', dict(ti=ti), shape='H',
                        bound='17 parent contexts, r<=3', budget=600, weight=50))
     return out
